@@ -66,10 +66,16 @@ func (v *Transformer) TransformDocument(rm *protocol.ResolutionModel,
 		return nil, errors.New("id is required for document transformation")
 	}
 
-	rm.Doc[document.IDProperty] = id
+	// the id goes into a copy: a resolution model may share its document with the state it was derived from
+	doc := make(document.Document, len(rm.Doc)+1)
+	for k, v := range rm.Doc {
+		doc[k] = v
+	}
+
+	doc[document.IDProperty] = id
 
 	result := &document.ResolutionResult{
-		Document:         rm.Doc,
+		Document:         doc,
 		DocumentMetadata: docMetadata,
 	}
 
